@@ -205,7 +205,16 @@ impl Backend for SyncB {
         (g.v(), w, r)
     }
     fn s_guard(s: &Self::S, ops: &[GuardOp]) -> Vec<GuardRes> {
-        let mut g = s.write();
+        // sessions with an even number of operations take the guard through `try_write` (nothing
+        // else holds the lock in this world, so it must succeed), the others through `write`
+        let mut g = if ops.len() % 2 == 0 {
+            match s.try_write() {
+                Ok(g) => g,
+                Err(_) => return vec![GuardRes::Acquired(false)],
+            }
+        } else {
+            s.write()
+        };
         let mut out = Vec::new();
         for op in ops {
             out.push(match op {
@@ -401,7 +410,15 @@ impl Backend for AsyncB {
         }
     }
     fn s_guard(s: &Self::S, ops: &[GuardOp]) -> Vec<GuardRes> {
-        let Some(mut g) = now(s.write()) else { return vec![GuardRes::Deref(STUCK_V)] };
+        let mut g = if ops.len() % 2 == 0 {
+            match s.try_write() {
+                Some(g) => g,
+                None => return vec![GuardRes::Acquired(false)],
+            }
+        } else {
+            let Some(g) = now(s.write()) else { return vec![GuardRes::Deref(STUCK_V)] };
+            g
+        };
         let mut out = Vec::new();
         for op in ops {
             out.push(match op {
